@@ -35,7 +35,7 @@ template <typename Parameters>
 typename fcppt::random::distribution::basic<Parameters>::param_type
 fcppt::random::distribution::basic<Parameters>::param() const
 {
-  return Parameters::convert_to(distribution_.param());
+  return Parameters::convert_to(distribution_);
 }
 
 template <typename Parameters>
@@ -57,7 +57,7 @@ template <typename Rng>
 typename fcppt::random::distribution::basic<Parameters>::result_type
 fcppt::random::distribution::basic<Parameters>::operator()(Rng &_rng, param_type const &_parameters)
 {
-  return this->make_result(distribution_(_rng), _parameters.convert_from());
+  return this->make_result(distribution_(_rng, _parameters.convert_from()));
 }
 
 template <typename Parameters>
